@@ -71,6 +71,10 @@ def _work(bse, validator, name, ver, combos, out):
             memo.memoize_enabled = True
         combos = list(combos)
         random.Random(out['label']).shuffle(combos)
+        if 'fit' in out['label'] or 'admm' in out['label']:
+            # fitting sets are uncontracted: remove_free_primitives empties whole elements; that call goes first, so that whatever it
+            # may have done to shared data is seen by all the others
+            combos.sort(key=lambda c: not (c.get('remove_free_primitives') and len([k for k in c if k != 'data_dir']) == 1))
     except Exception as e:
         out['error'] = '%s: %s' % (type(e).__name__, str(e)[:80])
         return out
